@@ -783,6 +783,18 @@ class Interp(seq_detached.DetachedMixin, S.SeqRun):
                 self.probe('cascade_deleted_ge_2')
             if n >= 3:
                 self.probe('cascade_depth_ge_2')
+        elif st == 'refused' and isinstance(res, core.ConstraintError) and not self.fault_fired_in_session \
+                and not self.view.objs[mo.mid].deleted:
+            # "refuses when a required dependent exists without cascade" - and only then
+            v2 = self.view.clone()
+            try:
+                v2.delete(mo.mid)
+            except Refuse:
+                self.probe('delete_refused_as_the_rule_says')
+            else:
+                self.viol('C15', 'refused-what-the-rule-accepts', mo.ent,
+                          '%s was refused (%s) although every dependent in its way cascades or can be unlinked'
+                          % (desc, str(res)[:160]))
         return st
 
     # ------------------------------------------------------------------ reads (C10, C11 identity)
@@ -876,6 +888,11 @@ class Interp(seq_detached.DetachedMixin, S.SeqRun):
         key = mo.pk[0] if len(mo.pk) == 1 else mo.pk
         # another live object may have taken over the same key (delete + recreate)
         holders = [o for o in self.view.live(mo.ent) if o.pk == mo.pk]
+        if not holders and any(x.is_rel for x in e.pk_attrs) and \
+                not all(any(t.pk == (kv,) for t in self.view.live(x.rel)) for x, kv in zip(e.pk_attrs, mo.pk) if x.is_rel):
+            # a raw value for a primary key that is a reference plants an (unverified) reference to a row that
+            # does not exist in the identity map: a guessed foreign key, not generated (see DESIGN 10)
+            return
         ok, got = self.read(what, lambda: P[key], exp_exc=core.ObjectNotFound)
         if not holders:
             if ok:
